@@ -157,9 +157,75 @@ def gen_dmz_cross(rng: Rng) -> dict:
             "notes": {"routers": 2, "kinds": f"firewall+{k2}", "routing": "cross", "fw": mode, "dmz_cross": True, "permit": "some"}}
 
 
+def gen_two_gateway(rng: Rng) -> dict:
+    """A CONSISTENT family the chain / shared-transit topologies do not contain: one LAN with TWO routers on it and asymmetric
+    routing.  Hosts of LAN L use R1 as default gateway; LAN M hangs off R2 (also on L), LAN N off R1.  A frame M -> L is delivered
+    onto L by R2 (so L's hosts learn "remote address -> R2's MAC" from it), while their own traffic to M must go to their gateway
+    R1, which routes it back onto L to R2.  A host that short-cuts through its ARP cache for off-subnet destinations changes the
+    path (and, where the delivering router has no route back, loses the exchange)."""
+    t = Topo()
+    r1, r2 = t.router("router"), t.router("router")
+    pl = rng.choice([24, 24, 25])
+    L, M, N = (192, 168, 30, 0), (192, 168, 31, 0), (172, 20, 0, 0)
+    sl = t.switch(6)
+    order = rng.shuffle(["r1", "r2", "h", "h"])
+    l_hosts = []
+    hostnum = 10
+    for what in order:
+        if what == "r1":
+            t.link(r1, t.rport(r1, _ip(L, 1), pl), sl, t.swport(sl))
+        elif what == "r2":
+            t.link(r2, t.rport(r2, _ip(L, 2), pl), sl, t.swport(sl))
+        else:
+            gw = _ip(L, 1) if (not l_hosts or rng.chance(2, 3)) else _ip(L, 2)
+            h = t.host(_ip(L, hostnum), pl, gw)
+            hostnum += 1
+            t.link(h, 0, sl, t.swport(sl))
+            l_hosts.append(h)
+    pm = rng.choice([24, 26])
+    km = t.rport(r2, _ip(M, 1), pm)
+    if rng.chance(1, 2):
+        sm = t.switch(3)
+        t.link(r2, km, sm, t.swport(sm))
+        x = t.host(_ip(M, 2), pm, _ip(M, 1))
+        t.link(x, 0, sm, t.swport(sm))
+    else:
+        x = t.host(_ip(M, 2), pm, _ip(M, 1))
+        t.link(x, 0, r2, km)
+    kn = t.rport(r1, _ip(N, 1), 16)
+    y = t.host(_ip(N, 2), 16, _ip(N, 1))
+    t.link(y, 0, r1, kn)
+    t.nodes[r1]["routes"].append({"addr": _ip(M, 0), "mask": _mask(pm), "nh": _ip(L, 2), "metric": 0})
+    style = rng.choice(["static", "default"])
+    if style == "static":
+        t.nodes[r2]["routes"].append({"addr": _ip(N, 0), "mask": _mask(16), "nh": _ip(L, 1), "metric": 0})
+    else:
+        t.nodes[r2]["default"] = _ip(L, 1)
+    hosts = l_hosts + [x, y]
+    ops: List[dict] = []
+    first = rng.choice([(x, l_hosts[0]), (l_hosts[0], x)])  # who speaks first decides what the LAN host has learned
+    ops.append({"op": "ping", "src": first[0], "dst": t.nodes[first[1]]["ip"], "count": rng.choice([1, 2])})
+    pairs = rng.shuffle([(p, q) for p in hosts for q in hosts if p != q])
+    for p, q in pairs:
+        ops.append({"op": "ping", "src": p, "dst": t.nodes[q]["ip"], "count": rng.choice([1, 1, 4])})
+    srv = rng.choice([x, y, l_hosts[0]])
+    t.nodes[srv]["flag"] = True
+    for r in (r1, r2):
+        t.nodes[r]["flag"] = True
+    ops += [{"op": "service", "src": h, "dst": t.nodes[srv]["ip"]} for h in hosts if h != srv]
+    ops += [{"op": "ping", "src": p, "dst": t.nodes[q]["ip"], "count": 1} for p, q in pairs[:4]]
+    for n in t.nodes:
+        n.pop("used", None)
+    return {"nodes": t.nodes, "links": t.links, "air": [], "ops": ops, "ping_permit": True, "all_permit": True, "consistent": True,
+            "icmp_ident_zero": False,
+            "notes": {"routers": 2, "kinds": "router+router", "routing": "two-gateway-" + style, "two_gateway": True, "permit": "all"}}
+
+
 def gen_case(rng: Rng, max_routers: int = 3) -> dict:
     if rng.chance(1, 14):
         return gen_dmz_cross(rng)
+    if rng.chance(1, 12):
+        return gen_two_gateway(rng)
     t = Topo()
     nr = rng.choice([0, 1, 1, 2, 2, 3][: 2 + 2 * max_routers]) if max_routers < 3 else rng.choice([0, 1, 1, 2, 2, 2, 3, 3])
     lan_prefixes = [24, 24, 25, 28, 16, 26]
@@ -648,7 +714,7 @@ class Recorder:
 APP_RULES = [("UDP", "DNS"), ("TCP", "DNS"), ("TCP", "POSTGRES_SERVER"), ("UDP", "POSTGRES_SERVER")]
 
 
-def build_impl(case: dict, rec: Recorder, app_acl: bool = False):
+def build_impl(case: dict, rec: Recorder, app_acl: Optional[dict] = None):
     from primaite.simulator.network.container import Network
     from primaite.simulator.network.hardware.nodes.host.computer import Computer
     from primaite.simulator.network.hardware.nodes.network.router import Router
@@ -714,8 +780,11 @@ def build_impl(case: dict, rec: Recorder, app_acl: bool = False):
                 cfg["acl"] = {1: {"action": "PERMIT", "protocol": "UDP", "src_port": "NTP", "dst_port": "NTP"}}
             if app_acl:
                 cfg.setdefault("acl", {})
-                for k, (proto, port) in enumerate(APP_RULES):
-                    cfg["acl"][2 + k] = {"action": "PERMIT", "protocol": proto, "src_port": port, "dst_port": port}
+                k2 = 2
+                for kind in app_acl.get(str(n), []):
+                    for proto in ("TCP", "UDP"):
+                        cfg["acl"][k2] = {"action": "PERMIT", "protocol": proto, "src_port": SVC_PORT[kind], "dst_port": SVC_PORT[kind]}
+                        k2 += 1
             o = Router.from_config(config=cfg)
         o.power_on()
         net.add_node(o)
@@ -853,58 +922,157 @@ def run_impl(case: dict) -> Tuple[List[str], List[dict]]:
     return answers, records
 
 
+SVC = {"dns": 53, "db": 5432, "web": 80, "ftp": 21}
+SVC_PORT = {"dns": "DNS", "db": "POSTGRES_SERVER", "web": "HTTP", "ftp": "FTP"}
+# one implementation-level operation = these model requests (service, answered-with-a-frame?), in order
+APP_OPS = {"dns": [("dns", 1)], "db-connect": [("db", 1)], "db-query": [("db", 1)], "web": [("web", 1)],
+           "ftp": [("ftp", 1)]}  # ftp: ONE driver line (`ftp`: PORT [PORT] STOR QUIT composed in the driver)
+
+
+def add_app_plan(case: dict, rng: Rng) -> dict:
+    """which server software the first host runs, which services each router permits, which exchanges each client tries"""
+    hosts = [n for n, nd in enumerate(case["nodes"]) if nd["kind"] == "host"]
+    routers = [n for n, nd in enumerate(case["nodes"]) if nd["kind"] == "router"]
+    mode = rng.choice(["all", "all", "some-servers", "some-permits"])
+    installed = list(SVC) if mode != "some-servers" else [k for k in SVC if rng.chance(1, 2)]
+    permit = {str(r): (list(SVC) if mode != "some-permits" else [k for k in SVC if rng.chance(2, 3)]) for r in routers}
+    ops = []
+    for cl in hosts[1:4]:
+        for kind in rng.shuffle(["dns", "db-connect", "web", "ftp"]):
+            ops.append({"kind": kind, "src": cl})
+            if kind == "db-connect":
+                ops.append({"kind": "db-query", "src": cl})
+    return dict(case, ops=[], app={"server": hosts[0], "installed": installed, "permit": permit, "ops": ops, "mode": mode})
+
+
+def app_model_lines(case: dict) -> Tuple[List[str], List[List[int]]]:
+    """driver lines of an application case and, per implementation-level operation, the positions of its model requests"""
+    base = dict(case, ops=[])
+    lines, _ = model_lines(base)
+    lines = lines[:lines.index("goodstate")]
+    plan = case["app"]
+    for n, nd in enumerate(case["nodes"]):  # every Computer runs dns-client, web-browser and ftp-client: their ports are open
+        if nd["kind"] == "host":
+            for k in ("dns", "web", "ftp"):
+                lines.append(f"setport {n} {SVC[k]}")
+    for k in plan["installed"]:
+        lines.append(f"setserve {plan['server']} {SVC[k]}")
+        if k == "db":
+            lines.append(f"setport {plan['server']} {SVC[k]}")
+    for r, ks in plan["permit"].items():
+        for k in ks:
+            lines.append(f"setserve {r} {SVC[k]}")
+    sip = case["nodes"][plan["server"]]["ip"]
+    groups = []
+    for op in plan["ops"]:
+        g = []
+        if op["kind"] == "db-connect":  # the operation installs and runs the database client: its port opens
+            lines.append(f"setport {op['src']} {SVC['db']}")
+        for svc, reply in APP_OPS[op["kind"]]:
+            g.append(len(lines))
+            if op["kind"] == "ftp":
+                lines.append(f"ftp {op['src']} {sip} {plan['server']}")
+            else:
+                lines.append(f"{'appif' if op['kind'] == 'db-query' else 'app'} {op['src']} {sip} {SVC[svc]} {reply}")
+        groups.append(g)
+    return lines, groups
+
+
 def run_apps(case: dict) -> List[dict]:
-    """R-app (implementation only; the property's oracles, no model): real application exchanges — DNS look-ups and database
-    connect + query — from every other host to the first host across the generated routers (plain routers, every one
-    permitting the applications' ports), cold caches.  Records have the shape `oracle` reads."""
+    """R-app, implementation side: REAL application exchanges — DNS look-up, database connect and query, web page request,
+    FTP file transfer — from up to three hosts to the first host across the generated plain routers, cold caches.  Which server
+    software runs and which ports each router permits follows the case's plan.  One record per operation: result, raw events."""
     from ipaddress import IPv4Address
+    plan = case["app"]
     rec = Recorder()
     rec.install()
     records: List[dict] = []
     try:
-        net, objs, ifaces = build_impl(case, rec, app_acl=True)
+        net, objs, ifaces = build_impl(case, rec, app_acl=plan["permit"])
         owners: Dict[str, int] = {}
         for n, lst in enumerate(ifaces):
             for ifc in lst:
                 if hasattr(ifc, "ip_address"):
                     owners.setdefault(str(ifc.ip_address), n)
-        hosts = [n for n, nd in enumerate(case["nodes"]) if nd["kind"] == "host"]
-        srv = hosts[0]
+        srv = plan["server"]
         sip = IPv4Address(case["nodes"][srv]["ip"])
         from primaite.simulator.system.applications.database_client import DatabaseClient
         from primaite.simulator.system.services.database.database_service import DatabaseService
         from primaite.simulator.system.services.dns.dns_server import DNSServer
-        objs[srv].software_manager.install(DNSServer)
-        objs[srv].software_manager.install(DatabaseService)
-        objs[srv].software_manager.software["dns-server"].dns_register("verif.example", sip)
+        from primaite.simulator.system.services.ftp.ftp_server import FTPServer
+        from primaite.simulator.system.services.web_server.web_server import WebServer
+        for k, cls in (("dns", DNSServer), ("db", DatabaseService), ("web", WebServer), ("ftp", FTPServer)):
+            if k in plan["installed"]:
+                objs[srv].software_manager.install(cls)
+        if "dns" in plan["installed"]:
+            objs[srv].software_manager.software["dns-server"].dns_register("verif.example", sip)
         rec.take()
-        for cl in hosts[1:4]:
-            for kind in ("dns", "db", "dns-again"):
-                res = "0"
-                try:
-                    if kind.startswith("dns"):
-                        dc = objs[cl].software_manager.software["dns-client"]
-                        dc.dns_server = sip
-                        if kind == "dns":
-                            dc.dns_cache.clear()
-                        res = "1" if dc.check_domain_exists("verif.example") else "0"
-                    else:
-                        objs[cl].software_manager.install(DatabaseClient)
-                        app = objs[cl].software_manager.software["database-client"]
-                        app.run()
-                        app.configure(server_ip_address=sip)
-                        res = "1" if (app.connect() and app.query("SELECT")) else "0"
-                except Exception as e:
-                    if isinstance(e, RecursionError) or "recursion" in str(e).lower():
-                        res = "OOF"
-                    else:
-                        raise
-                records.append({"op": {"op": "app:" + kind, "src": cl, "dst": str(sip)}, "res": res, "raw": rec.take(), "owners": owners})
-                if res == "OOF":
-                    return records
+        for op in plan["ops"]:
+            cl, kind = op["src"], op["kind"]
+            sm = objs[cl].software_manager
+            res = "0"
+            try:
+                if kind == "dns":
+                    dc = sm.software["dns-client"]
+                    dc.dns_server = sip
+                    dc.dns_cache.clear()
+                    res = "1" if dc.check_domain_exists("verif.example") else "0"
+                elif kind == "db-connect":
+                    sm.install(DatabaseClient)
+                    app = sm.software["database-client"]
+                    app.run()
+                    app.configure(server_ip_address=sip)
+                    app.native_connection = None
+                    res = "1" if app.connect() else "0"
+                elif kind == "db-query":
+                    app = sm.software["database-client"]
+                    res = "1" if (app.native_connection is not None and app.query("SELECT")) else "0"
+                elif kind == "web":
+                    wb = sm.software["web-browser"]
+                    wb.run()
+                    sm.software["dns-client"].dns_server = None  # an address, not a name: no look-up in front of the request
+                    res = "1" if wb.get_webpage(f"http://{sip}/") else "0"
+                else:
+                    if not objs[cl].file_system.get_file(folder_name="root", file_name="verif.txt"):
+                        objs[cl].file_system.create_file(file_name="verif.txt", folder_name="root")
+                    res = "1" if sm.software["ftp-client"].send_file(dest_ip_address=sip, src_folder_name="root", src_file_name="verif.txt",
+                                                                     dest_folder_name="in", dest_file_name=f"v{cl}.txt") else "0"
+            except Exception as e:
+                if isinstance(e, RecursionError) or "recursion" in str(e).lower():
+                    res = "OOF"
+                else:
+                    raise
+            raw = rec.take()
+            toks = []
+            for e in raw:
+                if e[0] == "rx":
+                    toks.append(f"rx:{e[1]}:{e[2]}:{id(e[3])}:{e[4]}")
+                elif e[0] == "hop":
+                    toks.append(f"hop:{e[1]}:{id(e[2])}:{e[3]}")
+                else:
+                    toks.append(f"sw:{e[1]}:{id(e[2])}")
+            records.append({"op": {"op": "app:" + kind, "src": cl, "dst": str(sip)}, "res": res, "raw": raw, "owners": owners,
+                            "answer": " ".join([res] + canon_events(toks))})
+            if res == "OOF":
+                return records
     finally:
         rec.remove()
     return records
+
+
+def app_model_answers(out: List[str], groups: List[List[int]], case: dict) -> List[str]:
+    """model answers per implementation-level operation: success = the answered request of the group got its answer"""
+    answers = []
+    for g, op in zip(groups, case["app"]["ops"]):
+        toks: List[str] = []
+        ok = "1"
+        for p, (svc, reply) in zip(g, APP_OPS[op["kind"]]):
+            parts = out[p].split()
+            if reply and parts[0] != "1":
+                ok = "0"
+            toks += parts[1:]
+        answers.append(" ".join([ok] + canon_events(toks)))
+    return answers
 
 
 def arp_sound_oracle(case: dict, answers: List[str]) -> Optional[dict]:
